@@ -5,6 +5,8 @@ import RModel.Base.Lit
 
   Mirrors
     lib.rs::configure_walker          (per-level WalkBuilder configuration; the data is GENERATED into Gen/Walker.lean)
+    ignore::dir::Ignore::add_parents / matched_ignore (ignore files in ancestors of the scan root are consulted iff
+                                       parents(true); which `.git` entries make `any_git` true)
     ignore::walk::Walk::skip_entry    (depth 0 is never skipped; ignore match, hidden rule, then the filter_entry
                                        closure; a skipped directory is not descended into; symlinks are not followed
                                        unless follow_links)
@@ -88,20 +90,44 @@ def honoured (c : LevelCfg) (inGit : Bool) : IgnKind → Bool
     (gitignore matching is the `ignore` crate's; a parameter here) -/
 abbrev IgnoreOracle := IgnKind → RelPath → Bool
 
-def ignoredBy (c : LevelCfg) (inGit : Bool) (ign : IgnoreOracle) (p : RelPath) : Bool :=
-  allKinds.any (fun k => honoured c inGit k && ign k p)
-
 -- the walk ------------------------------------------------------------------------------------------------
 
 inductive FType where
   | file | dir | symlink
   deriving DecidableEq, Repr
 
+/-- what the walk sees of the file system; all paths are relative to the scan root (`[]` = the root) -/
+structure Site where
+  /-- the directory contains an entry named `.git` -/
+  gitAt : RelPath → Bool
+  /-- some strict ancestor of the scan root contains `.git` -/
+  ancGit : Bool
+  /-- matched by an ignore file located in the root or below it -/
+  ign : IgnoreOracle
+  /-- matched by an ignore file located in a strict ancestor of the root (consulted only with `parents(true)`) -/
+  ignAbove : IgnoreOracle
+  /-- lstat type -/
+  ty : RelPath → FType
+
+/-- all prefixes of a path, shortest first, including `[]` and the path itself -/
+def inits {α} : List α → List (List α)
+  | [] => [[]]
+  | x :: xs => [] :: (inits xs).map (x :: ·)
+
+/-- `any_git` of `Ignore::matched_ignore` for an entry whose directory is `dir`: a `.git` in the root or in a directory
+    on the way down counts when git_ignore or git_exclude is on (`add_child_path`), one in an ancestor of the root only
+    when git_ignore is on (`add_parents`) -/
+def inGitAt (c : LevelCfg) (s : Site) (dir : RelPath) : Bool :=
+  !c.requireGit || ((c.gitIgnore || c.gitExclude) && (inits dir).any s.gitAt) || (c.gitIgnore && s.ancGit)
+
+def ignoredBy (c : LevelCfg) (inGit : Bool) (s : Site) (p : RelPath) : Bool :=
+  allKinds.any (fun k => honoured c inGit k && (s.ign k p || (c.parents && s.ignAbove k p)))
+
 def isHidden (n : Name) : Bool := n.head? == some 46
 
-/-- `skip_entry` for one entry at depth ≥ 1 (its last component is `n`) -/
-def stepOk (c : LevelCfg) (inGit : Bool) (ign : IgnoreOracle) (p : RelPath) (n : Name) : Bool :=
-  !(ignoredBy c inGit ign p) && !(c.hidden && isHidden n) && !(c.filtered.contains n)
+/-- `skip_entry` for the entry `dir ++ [n]` (depth ≥ 1) -/
+def stepOk (c : LevelCfg) (s : Site) (dir : RelPath) (n : Name) : Bool :=
+  !(ignoredBy c (inGitAt c s dir) s (dir ++ [n])) && !(c.hidden && isHidden n) && !(c.filtered.contains n)
 
 /-- may the walker descend into an entry of this lstat type -/
 def descends (c : LevelCfg) : FType → Bool
@@ -110,18 +136,17 @@ def descends (c : LevelCfg) : FType → Bool
   | .file => false
 
 /-- `walkedFrom pre rest`: every entry on the way from `pre` down to `pre ++ rest` passes `skip_entry`, and every
-    proper ancestor is something the walker descends into. `ty` gives the lstat type of each path of the tree. -/
-def walkedFrom (c : LevelCfg) (inGit : Bool) (ign : IgnoreOracle) (ty : RelPath → FType) :
-    RelPath → RelPath → Bool
+    proper ancestor is something the walker descends into. -/
+def walkedFrom (c : LevelCfg) (s : Site) : RelPath → RelPath → Bool
   | _, [] => true
   | pre, n :: rest =>
-    stepOk c inGit ign (pre ++ [n]) n &&
-    (rest.isEmpty || descends c (ty (pre ++ [n]))) &&
-    walkedFrom c inGit ign ty (pre ++ [n]) rest
+    stepOk c s pre n &&
+    (rest.isEmpty || descends c (s.ty (pre ++ [n]))) &&
+    walkedFrom c s (pre ++ [n]) rest
 
-/-- the walker yields the entry at `p` -/
-def walked (c : LevelCfg) (inGit : Bool) (ign : IgnoreOracle) (ty : RelPath → FType) (p : RelPath) : Bool :=
-  walkedFrom c inGit ign ty [] p
+/-- the walker yields the entry at `p` (the root itself, depth 0, is never skipped) -/
+def walked (c : LevelCfg) (s : Site) (p : RelPath) : Bool :=
+  walkedFrom c s [] p
 
 -- glob sets -----------------------------------------------------------------------------------------------
 
@@ -191,13 +216,17 @@ structure Pipeline where
   binaryAsText : Nat → Bool
   scanFollows : Bool
   simpleFollows : Bool
+  /-- `create_simple_plan` / `process_path_renames` strip only the FIRST search path before matching globs -/
+  simpleFirstRootOnly : Bool := false
 
 structure Request where
   level : Nat
   respectGitignore : Bool := true
-  inGit : Bool
-  ign : IgnoreOracle
-  ty : RelPath → FType
+  site : Site
+  /-- is the scan root of this request the first PATHS argument -/
+  firstRoot : Bool := true
+  /-- the absolute path of the root as components (what glob patterns see when the prefix is not stripped) -/
+  absPrefix : RelPath := []
   gm : Bytes → Bytes → Bool
   globs : Globs
 
@@ -205,21 +234,29 @@ def Pipeline.cfgFor (P : Pipeline) (r : Request) : LevelCfg := P.W.cfg (P.W.effe
 
 /-- `plan` / `rename` / `search`: may the content of entry `e` be matched -/
 def inScope (P : Pipeline) (r : Request) (e : Entry) : Bool :=
-  walked (P.cfgFor r) r.inGit r.ign r.ty e.path &&
+  walked (P.cfgFor r) r.site e.path &&
   isFileFor P.scanFollows e &&
   globsOk P.G r.gm r.globs e.path &&
   (P.binaryAsText r.level || !(isBinary P.S e.content))
 
+/-- the path the `replace` planner hands to the glob sets -/
+def simpleGlobPath (P : Pipeline) (r : Request) (e : Entry) : RelPath :=
+  if P.simpleFirstRootOnly && !r.firstRoot then r.absPrefix ++ e.path else e.path
+
 /-- `replace` (create_simple_plan) -/
 def inScopeSimple (P : Pipeline) (r : Request) (e : Entry) : Bool :=
-  walked (P.cfgFor r) r.inGit r.ign r.ty e.path &&
-  globsOk P.G r.gm r.globs e.path &&
+  walked (P.cfgFor r) r.site e.path &&
+  globsOk P.G r.gm r.globs (simpleGlobPath P r e) &&
   isFileFor P.simpleFollows e &&
   (P.binaryAsText r.level || !(isBinary P.S e.content))
 
 /-- both rename planners: may the entry be proposed for renaming (any lstat type) -/
 def renameCandidate (P : Pipeline) (r : Request) (e : Entry) : Bool :=
-  walked (P.cfgFor r) r.inGit r.ign r.ty e.path && globsOk P.G r.gm r.globs e.path
+  walked (P.cfgFor r) r.site e.path && globsOk P.G r.gm r.globs e.path
+
+/-- `replace`: rename proposals (process_path_renames) -/
+def renameCandidateSimple (P : Pipeline) (r : Request) (e : Entry) : Bool :=
+  walked (P.cfgFor r) r.site e.path && globsOk P.G r.gm r.globs (simpleGlobPath P r e)
 
 -- match and line exclusion ------------------------------------------------------------------------------------
 
